@@ -68,7 +68,8 @@ def run(ctx):
     if not detc:
         raise vlib.ToolError("no case with a detached change")
     if thorough:
-        todo = [("issue", cases[0] + cases[1] + detc), ("patch", rnd.sample(inter(cases[0]), 6000) + rnd.sample(inter(cases[1]), 3000) + rnd.sample(detc, 300))]
+        todo = [("issue", rnd.sample(cases[0], 24000) + rnd.sample(cases[1], 10000) + detc),
+                ("patch", rnd.sample(inter(cases[0]), 4000) + rnd.sample(inter(cases[1]), 2000) + rnd.sample(detc, 300))]
     else:
         todo = [("issue", rnd.sample(inter(cases[0]), 1500) + rnd.sample(cases[0], 300) + rnd.sample(detc, 250)),
                 ("patch", rnd.sample(inter(cases[0]), 400) + rnd.sample(detc, 60))]
@@ -95,7 +96,7 @@ def run(ctx):
         ctx.cov["traces_validated_against_impl"] += summary["graphs"]
         ctx.cov["samples"] += [c for c in cs if c["rej"]][:2]
     ctx.cov["distinct_nontrivial"] = nontrivial
-    ctx.cov["exhaustive"] = bool(thorough)
+    ctx.cov["exhaustive"] = False   # TLC enumerates the bounded spaces completely; the replay samples them
     ctx.cov["drift_replay"] = drift
 
     # 4. implementation -> spec: random larger graphs with all payload classes, partial closures;
